@@ -80,6 +80,15 @@ CHECKS = {
              '(CPython >= 3.12 compensates float sums; the algorithms agree there; predicate allExact is evaluated by the driver per case); dates and error values inside '
              'areas, text/boolean scalar arguments of SUM: compared with the model, not with the spec (the statement is silent).',
         technique='Lean 4 proof over hand model (exact rationals for doubles) + differential correspondence + algebraic law on the real code', design='5/C11'),
+    'C20': dict(
+        text='Tie A regenerates on every run the table (name, normalised AST) of every helper of (i) the class text the real Context.build_class() renders and '
+             '(ii) AbstractExcelInPython; Lean theorems (kernel-checked) say the two tables are the same table (same_helpers, helpers_identical, helper_agrees) and that the '
+             'import environments agree up to ABC. When an obligation fails the check runs every same-named helper of both copies on generated arguments and reports '
+             'the first differing call as the replay. This is the weakest use of the technique in this project: the theorem is a syntactic identity of the two programs; '
+             'that identical programs compute identical results is CPython determinism (trusted).',
+        note='Trusted: Lean kernel; the AST normalisation in harness/extract.py (removes annotations, docstrings, positions only); CPython determinism; '
+             'clock-dependent helpers compared by result type.',
+        technique='translation-regenerated tables + Lean 4 kernel-checked identity + differential execution of the two copies', design='5/C20'),
 }
 
 WIP = set()   # built, proofs in progress: not claimed until green
